@@ -37,9 +37,12 @@ TOK = {"Identifier": "identifier", "QuotedIdentifier": "quotedIdentifier", "Numb
        "Lparen": "lparen", "Rparen": "rparen", "Lbrace": "lbrace", "Rbrace": "rbrace", "Eof": "eof"}
 
 
+class Broken(Exception):
+    """a region of the source could not be translated (a broken tie, DESIGN §2.3) — confined to the generated file it concerns"""
+
+
 def fail(msg):
-    sys.stderr.write("translate.py: " + msg + "\n")
-    sys.exit(1)
+    raise Broken(msg)
 
 
 def gen_lbp():
@@ -48,9 +51,11 @@ def gen_lbp():
     if not m:
         fail("cannot find Token::lbp in lexer.rs")
     arms, default = {}, None
-    for arm in re.finditer(r"([A-Za-z_|\s]+?)\s*=>\s*(\d+)\s*,", m.group(1)):
+    for arm in re.finditer(r"([A-Za-z_:|\s()]+?)\s*=>\s*(\d+)\s*,", m.group(1)):
         names, val = arm.group(1), int(arm.group(2))
         for n in [x.strip() for x in names.split("|")]:
+            n = re.sub(r"\(\s*(?:_|\.\.)\s*\)$", "", n)          # `Identifier(_)`: the payload does not matter
+            n = re.sub(r"^(?:Token|Self)::", "", n)
             if n == "_":
                 default = val
             elif n in TOK:
@@ -58,7 +63,11 @@ def gen_lbp():
             else:
                 fail(f"unknown token {n!r} in Token::lbp")
     if default is None:
-        fail("Token::lbp has no default arm")
+        # an exhaustive match without `_`: every token must be listed
+        missing = [t for t in TOK if t not in arms]
+        if missing:
+            fail("Token::lbp has no default arm and does not mention %s" % missing)
+        default = 0
     ps = strip_rust_comments(read("parser.rs"))
     m = re.search(r"const PROJECTION_STOP:\s*usize\s*=\s*(\d+);", ps)
     if not m:
@@ -257,13 +266,55 @@ def char_lit(tok):
 def gen_lextable():
     """the `match ch { … }` of Lexer::tokenize as a table, consume_lbracket's alternatives, and the shape of `alt`"""
     lx = strip_rust_comments(read("lexer.rs"))
-    m = re.search(r"fn tokenize\(&mut self\).*?match self\.iter\.next\(\)\s*\{\s*Some\(\(pos, ch\)\)\s*=>\s*\{\s*match ch\s*\{(.*?)\n {20}\}\s*\}\s*None\s*=>", lx, re.S)
-    if not m:
+    mt = re.search(r"fn tokenize\(&mut self\)", lx)
+    mc = re.search(r"match\s+ch\s*\{", lx[mt.end():]) if mt else None
+    if not mc:
         fail("cannot find the `match ch` of Lexer::tokenize")
-    body = m.group(1)
-    # split into arms at the arm indentation (24 spaces) — an arm starts with a pattern followed by `=>`
-    arms = re.split(r"\n {24}(?='|[a-z_]+ =>)", "\n" + body.strip("\n"))
-    arms = [a for a in (x.strip() for x in arms) if a]
+
+    def skip_lit(src, i):
+        """index after the char / string literal starting at src[i] (or i itself when there is none)"""
+        if src[i] == '"':
+            j = i + 1
+            while src[j] != '"':
+                j += 2 if src[j] == "\\" else 1
+            return j + 1
+        if src[i] == "'":
+            mm_ = re.compile(r"'(?:\\.[^']*|[^\\'])'").match(src, i)
+            return mm_.end() if mm_ else i
+        return i
+
+    def block_end(src, i):
+        """src[i] is just after an opening brace: index of the matching closing brace"""
+        depth = 1
+        while depth:
+            j = skip_lit(src, i)
+            if j != i:
+                i = j
+                continue
+            depth += {"{": 1, "}": -1}.get(src[i], 0)
+            i += 1
+        return i - 1
+
+    b0 = mt.end() + mc.end()
+    body = lx[b0:block_end(lx, b0)]
+    # split into arms at depth 0: an arm is `pattern => expr ,` or `pattern => { block }` (format- and indentation-independent)
+    arms, i, cur, depth = [], 0, "", 0
+    while i < len(body):
+        j = skip_lit(body, i)
+        if j != i:
+            cur += body[i:j]
+            i = j
+            continue
+        ch_ = body[i]
+        depth += 1 if ch_ in "{([" else -1 if ch_ in "})]" else 0
+        cur += ch_
+        i += 1
+        if depth == 0 and "=>" in cur and (ch_ == "," or (ch_ == "}" and re.search(r"=>\s*\{", cur) and re.match(r"\s*(?:,|'|[a-z_]+\s*=>|$)", body[i:]))):
+            arms.append(cur.strip().rstrip(","))
+            cur = ""
+    if cur.strip():
+        arms.append(cur.strip().rstrip(","))
+    arms = [a for a in (x.strip().strip(",").strip() for x in arms) if a]
     rows = []
     for a in arms:
         mm = re.match(r"(.*?)\s*=>\s*(.*)$", a, re.S)
@@ -283,18 +334,24 @@ def gen_lextable():
             fail(f"unrecognised pattern {pat!r} in Lexer::tokenize")
         for lo, hi in alts_found:
             ranges.append(f"({char_lit(lo)}, {char_lit(hi or lo)})")
-        x = re.fullmatch(r"tokens\.push_back\(\(pos, ([A-Z][A-Za-z]*)\)\)", rhs)
-        y = re.fullmatch(r"tokens\.push_back\(\(pos, self\.alt\(('.'), ([A-Za-z]+), ([A-Za-z]+)\)\)\)", rhs)
-        z = re.fullmatch(r"\{?\s*tokens\.push_back\(\(pos, self\.(consume_[a-z_]+)\([a-z, ]*\)\??\)\)\s*\}?", rhs)
+        # the token an arm yields: either pushed directly (`tokens.push_back((pos, T))`) or the arm's value (pushed once after the match)
+        core = rhs
+        mw = re.fullmatch(r"\{?\s*(?:self\.)?tokens\.push_back\(\(pos, (.*)\)\);?\s*\}?", core)
+        if mw:
+            core = mw.group(1).strip()
+        core = re.sub(r"^\{\s*(.*?)\s*\}$", r"\1", core) if not core.startswith("match") else core
+        x = re.fullmatch(r"(?:Token::)?([A-Z][A-Za-z]*)", core)
+        y = re.fullmatch(r"self\.alt\(('.'), (?:Token::)?([A-Za-z]+), (?:Token::)?([A-Za-z]+)\)", core)
+        z = re.fullmatch(r"self\.(consume_[a-z_]+)\([a-z, ]*\)\??", core)
         if x:
             act = f'.single "{x.group(1)}"'
         elif y:
             act = f'.alt {char_lit(y.group(1))} "{y.group(2)}" "{y.group(3)}"'
         elif z:
             act = f'.call "{z.group(1)}"'
-        elif rhs == "{}":
+        elif rhs in ("{}", "continue", "{ continue }", "{ continue; }", "()"):
             act = ".skip"
-        elif rhs.startswith("match self.iter.next()") and re.search(r"Some\(\(_, c\)\) if c == '=' => tokens\.push_back\(\(pos, Eq\)\)", rhs) and "return Err" in rhs:
+        elif rhs.startswith("match self.iter.next()") and re.search(r"Some\(\(_, c\)\) if c == '=' => (?:tokens\.push_back\(\(pos, Eq\)\)|Eq\b)", rhs) and "return Err" in rhs:
             act = ".eqeq"
         else:
             fail(f"unrecognised action in Lexer::tokenize: {pat} => {rhs[:100]!r}")
@@ -320,7 +377,7 @@ def gen_lextable():
         fail("unrecognised digit predicate in consume_number")
     lines = ["/- GENERATED by tools/translate.py from /repo/jmespath/src/lexer.rs — do not edit. -/",
              "import JmesVerif.Model.LexTable", "namespace JmesVerif.Generated", "",
-             "/-- the arms of `match ch` in `Lexer::tokenize`, in source order (the default arm is the invalid-character error) -/",
+             "/-- the arms of `match ch` in `Lexer::tokenize`, in source order (the default arm is the invalid-character error); Props/C03 compares it with the documented table up to order and grouping of the arms -/",
              "def lexArms : List LexArm := [", ",\n".join(rows) + "]", "",
              "/-- `consume_lbracket`: next character → token; otherwise `Lbracket` -/",
              "def lbracketAlts : List (Char × String) := [" + ", ".join(f'({char_lit(c)}, "{t}")' for c, t in alts) + "]", "",
@@ -427,20 +484,23 @@ def gen_cli():
     src = strip_rust_comments(open(path, encoding="utf-8").read())
     args = []
     for m in re.finditer(r"Arg::with_name\(\s*\"([^\"]+)\"\s*\)", src):
-        # the builder chain of this argument: up to the parenthesis that closes `.arg(`
-        i, depth = m.end(), 0
-        while i < len(src):
-            if src[i] == "(":
-                depth += 1
-            elif src[i] == ")":
-                if depth == 0:
-                    break
-                depth -= 1
-            elif src[i] == '"':           # skip string literals (help texts contain parentheses)
-                i += 1
-                while src[i] != '"':
-                    i += 2 if src[i] == "\\" else 1
-            i += 1
+        # the builder chain of this argument: the run of `.method(args)` calls that follows `Arg::with_name("..")`, wherever it stands
+        # (inline in `.arg(..)`, or bound to a local first)
+        i = m.end()
+        while True:
+            mm_ = re.compile(r"\s*\.\s*[a-z_]+\s*\(").match(src, i)
+            if not mm_:
+                break
+            j, depth = mm_.end(), 1
+            while depth:
+                if src[j] == '"':
+                    j += 1
+                    while src[j] != '"':
+                        j += 2 if src[j] == "\\" else 1
+                elif src[j] in "()":
+                    depth += 1 if src[j] == "(" else -1
+                j += 1
+            i = j
         chain = src[m.end():i]
         chain_nostr = re.sub(r"\.help\(\s*(\"(?:[^\"\\]|\\.)*\"\s*)+,?\s*\)", "", chain, flags=re.S)
         def one(meth):
@@ -459,11 +519,11 @@ def gen_cli():
                          conflicts=re.findall(r"\.conflicts_with\(\s*\"([^\"]*)\"\s*\)", chain_nostr)))
     if not args:
         fail("jp: no clap arguments found in main.rs")
-    dm = re.search(r"macro_rules!\s*die\s*\((.*?)\n\);", src, re.S)
+    dm = re.search(r"macro_rules!\s*die\s*\((.*?)\n\);", src, re.S) or re.search(r"fn die\b[^{]*->\s*!\s*\{(.*?)\n\}\n", src, re.S)
     if not dm:
-        fail("jp: cannot find the die! macro")
+        fail("jp: cannot find the die! macro (or a diverging `fn die`)")
     exits = re.findall(r"\bexit\(\s*(\d+)\s*\)", dm.group(1))
-    to_stderr = bool(re.search(r"writeln!\(\s*&mut\s+::std::io::stderr\(\)", dm.group(1)))
+    to_stderr = bool(re.search(r"writeln!\(\s*&mut\s+(?:::)?(?:std::)?io::stderr\(\)", dm.group(1)) or re.search(r"\beprintln!\(", dm.group(1)))
     if len(exits) != 1:
         fail("jp: die! must contain exactly one exit(N)")
     mm = re.search(r"fn main\(\)\s*\{(.*?)\n\}\n", src, re.S)
@@ -540,12 +600,38 @@ def gen_interp_code():
         fail("rs2lean (interpret): broken tie: the source could not be processed (%s: %s)" % (type(e).__name__, e))
 
 
+def gen_valid_code():
+    """ArgumentType::is_valid, Signature::validate / validate_arg / validate_arity, the Display impls of ArgumentType / JmespathType, float_eq,
+    PartialEq and Ord for Variable re-translated by tools/rs2lean.py into Generated/ValidCode.lean"""
+    import rs2lean
+    try:
+        return rs2lean.generate_valid()
+    except rs2lean.TieError as e:
+        fail("rs2lean (validator / equality): broken tie: %s" % e)
+    except (IndexError, KeyError, TypeError, ValueError, AssertionError, RecursionError, StopIteration) as e:
+        fail("rs2lean (validator / equality): broken tie: the source could not be processed (%s: %s)" % (type(e).__name__, e))
+
+
 def main():
-    ch = []
-    for name, fn in (("Lbp.lean", gen_lbp), ("Signatures.lean", gen_sigs), ("Features.lean", gen_features), ("LexTable.lean", gen_lextable), ("Vocab.lean", gen_vocab), ("CliArgs.lean", gen_cli), ("Code.lean", gen_code), ("InterpCode.lean", gen_interp_code)):
-        if write_if_changed(name, fn()):
+    """Each generator writes one file.  A generator that cannot read its region of the source does not stop the others: its file is replaced by a
+    stub that does not elaborate, so exactly the Lean modules that depend on that region (and the properties whose theorems import them) lose their
+    proof obligation; everything else is translated and checked as usual."""
+    ch, broken = [], []
+    for name, fn in (("Lbp.lean", gen_lbp), ("Signatures.lean", gen_sigs), ("Features.lean", gen_features), ("LexTable.lean", gen_lextable), ("Vocab.lean", gen_vocab), ("CliArgs.lean", gen_cli), ("Code.lean", gen_code), ("InterpCode.lean", gen_interp_code), ("ValidCode.lean", gen_valid_code)):
+        try:
+            content = fn()
+        except Broken as e:
+            broken.append((name, str(e)))
+            msg = str(e).replace("-/", "- /")
+            content = ("/- BROKEN TIE: tools/translate.py could not translate the region of the source this file is generated from:\n   %s -/\n"
+                       "#check (BROKEN_TIE_%s : Nat)   -- deliberately does not elaborate\n" % (msg, name.split(".")[0]))
+        if write_if_changed(name, content):
             ch.append(name)
     print("translate: " + ("rewrote " + ", ".join(ch) if ch else "unchanged"))
+    for name, msg in broken:
+        sys.stderr.write("translate.py: BROKEN TIE in %s: %s\n" % (name, msg))
+    # exit status 0: a broken tie shows as a failed `lake build` of exactly the modules that import the stub
+    # (the message above is kept in the obligation's detail)
 
 
 if __name__ == "__main__":
